@@ -888,7 +888,7 @@ func (x *bitCtx) checkOperators() {
 						ok = false
 					}
 				}
-				if e.Kind == EvCall && e.Method != nil && e.Gen {
+				if e.Kind == EvCall && e.Method != nil && e.Gen && e.callName() != "math/bits.OnesCount64" {
 					seen = true
 					want := strings.Split(op.leaf, "+")
 					good := false
@@ -904,6 +904,52 @@ func (x *bitCtx) checkOperators() {
 				}
 				if op.name == "Equal" && e.Kind == EvBranch && e.Gen && e.Cond.Kind == KBin && (e.Cond.Op == token.NEQ || e.Cond.Op == token.EQL) {
 					seen = true
+				}
+				// the word operation written out instead of the one-line Bit64 method: x & y, x | y, ^x, OnesCount64(x)
+				if e.Kind == EvCall && e.Gen && e.callName() == "math/bits.OnesCount64" {
+					if op.leaf == "Len" {
+						seen = true
+						seenLeaf["Len"] = true
+					} else {
+						ok = false
+					}
+				}
+				if e.Kind == EvStore && e.Gen && e.Val != nil && op.name != "Len" && op.name != "Equal" {
+					var visit func(x *Sym)
+					visit = func(x *Sym) {
+						if x == nil || (x.Kind != KBin && x.Kind != KUn && x.Kind != KConv) {
+							return // a loaded word, a constant
+						}
+						for _, a := range x.Args {
+							visit(a)
+						}
+						w := ""
+						switch {
+						case x.Kind == KBin && x.Op == token.AND:
+							w = "And"
+						case x.Kind == KBin && x.Op == token.OR:
+							w = "Or"
+						case x.Kind == KUn && x.Op == token.XOR:
+							w = "Reverse"
+						case x.Kind == KBin && (x.Op == token.XOR || x.Op == token.AND_NOT || x.Op == token.SHL || x.Op == token.SHR || x.Op == token.ADD || x.Op == token.SUB):
+							ok = false // some other word arithmetic
+							return
+						default:
+							return
+						}
+						seen = true
+						good := false
+						for _, want := range strings.Split(op.leaf, "+") {
+							if want == w {
+								good = true
+								seenLeaf[w] = true
+							}
+						}
+						if !good {
+							ok = false
+						}
+					}
+					visit(e.Val)
 				}
 			}
 			if op.name == "Equal" {
